@@ -8,6 +8,7 @@ import (
 	"os/exec"
 	"strconv"
 	"strings"
+	"sync/atomic"
 	"time"
 )
 
@@ -41,7 +42,22 @@ type Solver struct {
 	LastQuery string // SMT text accumulated since path start (for dumps)
 	keepText  bool
 	text      strings.Builder
+	xlog      *os.File // cross-solver session log (text sent + "; RESULT r" after each check)
+	xbytes    int
+	xcap      int
+	xcmds     int
 }
+
+// XLogDir, when set, makes every solver process log its session (up to XLogCap bytes, at most
+// XLogMax sessions per run) for re-discharge by other solvers (CrossCheck).
+var XLogDir string
+var XLogCap = 3 << 20
+var XLogMax int32 = 48
+var xlogN int32
+var xlogUnit string
+
+// XLogUnit starts the per-unit session count (called by the runner before each unit).
+func XLogUnit(name string) { xlogUnit = name; atomic.StoreInt32(&xlogN, 0) }
 
 func NewSolver(bin string, timeoutMs int) (*Solver, error) {
 	s := &Solver{bin: bin, TimeoutMs: timeoutMs}
@@ -77,6 +93,12 @@ func (s *Solver) start() error {
 	}
 	s.pr = &Printer{defined: map[int]bool{}, out: &s.buf}
 	s.scopes = nil
+	if XLogDir != "" && s.xlog == nil {
+		if n := atomic.AddInt32(&xlogN, 1); n <= XLogMax {
+			s.xlog, _ = os.Create(fmt.Sprintf("%s/session-%s-%04d.smt2", XLogDir, xlogUnit, n))
+			s.xcap = XLogCap
+		}
+	}
 	s.send("(set-option :produce-models true)\n")
 	if !strings.Contains(s.bin, "cvc5") {
 		s.send(fmt.Sprintf("(set-option :timeout %d)\n", s.TimeoutMs))
@@ -87,6 +109,10 @@ func (s *Solver) start() error {
 }
 
 func (s *Solver) Close() {
+	if s.xlog != nil {
+		s.xlog.Close()
+		s.xlog = nil
+	}
 	if s.cmd != nil {
 		s.in.Close()
 		s.cmd.Process.Kill()
@@ -102,7 +128,22 @@ func (s *Solver) send(txt string) {
 	if s.log != nil {
 		io.WriteString(s.log, txt)
 	}
+	if s.xlog != nil {
+		io.WriteString(s.xlog, txt)
+		s.xbytes += len(txt)
+	}
 	io.WriteString(s.in, txt)
+}
+
+func (s *Solver) xresult(r SatResult) {
+	if s.xlog == nil {
+		return
+	}
+	fmt.Fprintf(s.xlog, "; RESULT %s\n", r)
+	if s.xbytes > s.xcap {
+		s.xlog.Close()
+		s.xlog = nil
+	}
 }
 
 // flushDefs sends pending definitions
@@ -187,6 +228,7 @@ func (s *Solver) checkCmd(cmd string) SatResult {
 	if dt > 2*time.Second && os.Getenv("GOSYM_PROGRESS") != "" {
 		fmt.Fprintf(os.Stderr, "slow query %.1fs result=%v cmd=%s", dt.Seconds(), res, cmd)
 	}
+	s.xresult(res)
 	switch res {
 	case Sat:
 		s.NSat++
